@@ -1,14 +1,23 @@
 """C02 -- exit status reflects the worst finding; incomplete audits never look clean."""
+import os
 import sys
-from pyvc.driver import main
-from contracts import c02_status
+from pyvc.driver import main, native_bounded, VERIF
+from contracts import c02_status, c02_native
+
+
+def custom_native(ip, runner):
+    code = c02_native.NATIVE % {'native': os.path.join(VERIF, 'native')}
+    return [native_bounded(runner, 'status-end-to-end', 'a key-exchange-init message cut short gives no algorithm report and status 1 (text and JSON); a complete one a report whose status is 0 only without warnings/failures; a multi-target run exits with the highest-ranked target status in every order',
+                           code, '2 peers x every 5th payload prefix (all of the last 12) x {text, JSON} against the fake server; all ordered pairs and triples of {good, warn, fail, refused} targets x {text, JSON}, one worker thread',
+                           'ssh_audit:main (end to end, fake network)')]
 
 
 def build(chk, ip, runner):
     chk.design_ref = 'DESIGN.md section 5 C02'
     chk.assumptions = ['OutputBuffer printing methods and the non-algorithm report sections only print (frame stubs)', 'socket layer, probes and message parsers abstract: any result, may raise', 'compression list fixed to a concrete two-element list in the output() unit (irrelevant to the status)']
-    chk.not_decided = ['main() / ssh-audit.py wrapper propagation of the status', 'whether a [fail] tag is *printed* for every failure note (empty note texts print no tag; C17 G1 shows the table has none)']
+    chk.not_decided = ['the ssh-audit.py wrapper (module-level code) and main()\'s fold are covered by the bounded stand-in only', 'whether a [fail] tag is *printed* for every failure note (empty note texts print no tag; C17 G1 shows the table has none)']
     chk.units = c02_status.units()
+    chk.customs = [custom_native]
     chk.stubs = c02_status.stubs()
     chk.lemmas = ['fold_is_worst', 'rep_s_len']
     ip.models['json.dumps'] = c02_status.m_json_dumps
